@@ -201,6 +201,15 @@ fn strategy(cap: usize, long: bool) -> BoxedStrategy<Case> {
 
 fn item_strategy() -> BoxedStrategy<DCase> {
     prop_oneof![
+        // short-mantissa values at every binary exponent (k * 2^e): whatever compact encoding a
+        // hand-written serializer chooses, its exactness test is exercised across all ranges
+        2 => (1u32..4096, -1074i32..1000, 0.0f64..1.0, 0.0f64..1.0).prop_map(|(k, e, a, b)| {
+            let unit = if e < -1022 { f64::from_bits(1u64 << (e + 1074).max(0)) } else { 2f64.powi(e) };
+            let l = k as f64 * unit;
+            let h = l + (k as f64 * a).round() * unit;
+            let c = l + ((h - l) / unit * b).round() * unit;
+            DCase { bar: RawBar { o: c, h, l, c, v: (k % 7) as f64 * unit.max(1e-300) } }
+        }),
         3 => valid_bar().prop_map(|bar| DCase { bar }),
         1 => (0usize..10, 0usize..10, 0usize..10, 0usize..10, 0usize..10).prop_map(|(a, b, c, d, e)| {
             const L: [f64; 10] = [f64::NEG_INFINITY, -2.0, -1.0, -0.0, 0.0, 1.0, 2.0, 3.0, f64::INFINITY, f64::NAN];
